@@ -883,3 +883,15 @@ def loop_body_always_continues(b, next_term):
         seen.add(z)
         stack.extend(y for _, y in b.succ[z])
     return True
+
+
+def resolve_calls(ctx, term, pred, depth=2):
+    """replace calls of workspace functions selected by `pred(callee path)` by what they return at that call site (single-case
+    callees only) - e.g. a `From` conversion that builds a record from the fields of its argument"""
+    def f(q):
+        if q[0] == "call" and q[1] in ctx.facts.bodies and pred(q[1]) and depth > 0:
+            cs = at_call(ctx, q)
+            if cs and len(cs) == 1:
+                return resolve_calls(ctx, cs[0][1], pred, depth - 1)
+        return None
+    return mir.subst(term, f)
